@@ -170,7 +170,7 @@ Arrive == /\ IsEvent("arrive") /\ "bad" \notin DOMAIN Ev
              /\ maxEdge' = [maxEdge EXCEPT ![e] = IF ack /\ ~rst /\ Ev.ack > -900000 THEN Max2(@, edge)
                                                   ELSE IF syn /\ ~ack /\ ~rst THEN Max2(@, Ev.wnd) ELSE @]
              /\ c5' = [c5 EXCEPT ![e] = IF ack /\ ~rst /\ ~syn /\ Ev.ack > -900000 THEN C5AfterAck(@, Ev.ack, len + (IF fin THEN 1 ELSE 0), Ev.wnd, Ev.t,
-                                                                                                                      emitMax[e] + (IF c5[e].finSent THEN 1 ELSE 0)) ELSE @]
+                                                                                                                      emitMax[e] + (IF c5[e].finSent THEN 1 ELSE 0), Fld(cfg, "kf_f28", FALSE)) ELSE @]
           /\ UNCHANGED <<cfg, up, written, offer, shut, emitMax, delivered, eos, rstop, advEdge, mss, ws, err, faults>>
 ArriveOther == /\ IsEvent("arrive") /\ "bad" \in DOMAIN Ev /\ Same
 Drop == /\ IsEvent("drop") /\ faults' = faults + 1
